@@ -20,6 +20,7 @@ import EEM.Model.Dst
 import EEM.Model.Serial
 import EEM.Model.History
 import EEM.Model.HourlyPrep
+import EEM.Model.Refine
 
 open EEM EEM.Proto EEM.Model
 
@@ -529,6 +530,46 @@ def opHPrep (args : List String) : String :=
     | _, _, _, _ => "bad-op"
   | _ => "bad-op"
 
+def showModelType : ModelType → String
+  | .hdd_tidd_cdd_smooth => "hdd_tidd_cdd_smooth"
+  | .hdd_tidd_cdd => "hdd_tidd_cdd"
+  | .hdd_tidd_smooth => "hdd_tidd_smooth"
+  | .hdd_tidd => "hdd_tidd"
+  | .tidd_cdd_smooth => "tidd_cdd_smooth"
+  | .tidd_cdd => "tidd_cdd"
+  | .tidd => "tidd"
+
+def showOF : Option Float → String
+  | some v => showFloat v
+  | none => "none"
+
+/-- `refine <key> <T_min> <T_max> <T_min_seg> <T_max_seg> <raw x...>`: `OptimizedResult._refine_model`
+(`get_full_model_x` then `reduce_model`) then `ModelCoefficients.from_np_arrays`; prints the coef-id
+key, the reduced vector and the stored record -/
+def opRefine (args : List String) : String :=
+  match args with
+  | k :: rest =>
+    match parseKey k, rest.mapM parseFloat with
+    | some k, some (tmin :: tmax :: tmins :: tmaxs :: raw) =>
+      match Gen.get_full_model_x k raw tmin tmax tmins tmaxs with
+      | some [hb, bh, pkh, cb, bc, pkc, c] =>
+        match Model.Refine.reduceModel 3 hb bh pkh cb bc pkc c tmins tmaxs k with
+        | none => "ok err"
+        | some (ids, x) =>
+          match Model.Refine.fromNpArrays ids x with
+          | none => "ok err"
+          | some r =>
+            s!"ok {repr ids.key} {",".intercalate (x.map showFloat)} {showModelType r.model_type} {showFloat r.intercept} {showOF r.hdd_bp} {showOF r.hdd_beta} {showOF r.hdd_k} {showOF r.cdd_bp} {showOF r.cdd_beta} {showOF r.cdd_k}"
+      | _ => "ok err"
+    | _, _ => "bad-op"
+  | _ => "bad-op"
+
+/-- `getk <T_min_seg> <T_max_seg> <hb pkh cb pkc>` -/
+def opGetK (args : List String) : String :=
+  match args.mapM parseFloat with
+  | some [tmins, tmaxs, hb, pkh, cb, pkc] => showList (Model.Refine.getK hb pkh cb pkc tmins tmaxs)
+  | _ => "bad-op"
+
 def step (line : String) : String :=
   match words line with
   | "submodel" :: args => opPredictSubmodel args
@@ -537,6 +578,8 @@ def step (line : String) : String :=
   | "gfx" :: args => opGfx args
   | "fix" :: args => opFix args
   | "smooth" :: args => opSmooth args
+  | "refine" :: args => opRefine args
+  | "getk" :: args => opGetK args
   | "segrow" :: args => opSegRow args
   | "contribs" :: args => opContribs args
   | "bins" :: args => opBins args
